@@ -31,7 +31,7 @@ def run(ctx: Ctx, chk) -> None:
         if f in done:
             continue
         done.add(f)
-        check_allocator(ctx, chk, f, V)
+        chk.run_rule(lambda c, k, f=f, V=V: check_allocator(c, k, f, V), ctx)
     if not done:
         raise AnalysisError("anchor vanished: id request handler")
     # "the answer is addressed like the request": the reply is constructed with the request's ids (ORDER-ID above);
@@ -39,6 +39,7 @@ def run(ctx: Ctx, chk) -> None:
     from . import c01
 
     chk.run_rule(lambda c, k: c01.encid1(c, k, "ENC-ID-1"), ctx)
+    chk.run_rule(id_keep, ctx)
 
 
 def check_allocator(ctx: Ctx, chk, f, V: str) -> None:
@@ -56,9 +57,30 @@ def check_allocator(ctx: Ctx, chk, f, V: str) -> None:
         raise AnalysisError(f"C11: registry key `{norm(tgt.slice)}` is not a local variable")
     idv = tgt.slice.id
     la = I.local_assigns(f).get(idv) or []
-    if len(la) != 1 or not isinstance(la[0], ast.expr):
-        raise AnalysisError(f"C11: `{idv}` is not assigned exactly once in {f.fq}")
+    if not la or not all(isinstance(v, ast.expr) for v in la):
+        raise AnalysisError(f"C11: `{idv}` is not bound by plain assignments in {f.fq}")
+    la = sorted(la, key=lambda v: (v.lineno, v.col_offset))
     alloc = la[0]
+    # further assignments (a fallback when the first candidate is out of range): each must itself be a fresh id in 1..MAX
+    for extra in la[1:]:
+        pick = range_pick(ctx, f, extra)
+        if pick is None:
+            raise AnalysisError(f"C11: `{idv}` is assigned more than once in {f.fq} and `{norm(extra)[:60]}` is not a recognised allocation")
+        lo, hi, has_filter = pick
+        chk.rule("RANGE-1", f"every id that can be handed out lies in 1..{max_id}")
+        chk.instance("RANGE-1")
+        k = f"{f.fq}::{norm(extra)[:60]}::range"
+        if lo < 1 or hi - 1 > max_id:
+            chk.refute("RANGE-1", k, f"the fallback `{idv} = {norm(extra)[:60]}` picks from [{lo}, {hi - 1}]: an id outside 1..{max_id} (0 is the gateway itself, 255 the broadcast address) can be handed out", ctx.loc(f, extra))
+        else:
+            chk.ok("RANGE-1", k, f"fallback candidates lie in [{lo}, {hi - 1}]", ctx.loc(f, extra))
+        chk.rule("FRESH-1", "the id handed out is not a key of the registry")
+        chk.instance("FRESH-1")
+        k = f"{f.fq}::{norm(extra)[:60]}::fresh"
+        if has_filter:
+            chk.ok("FRESH-1", k, "candidates are filtered by `not in gateway.nodes`", ctx.loc(f, extra))
+        else:
+            chk.refute("FRESH-1", k, f"the fallback `{norm(extra)[:60]}` does not exclude registered ids", ctx.loc(f, extra))
     search = search_shape(ctx, f, alloc)
     if search is not None:
         check_search_allocator(ctx, chk, f, g, idv, alloc, store, search, max_id)
@@ -168,12 +190,95 @@ def check_allocator(ctx: Ctx, chk, f, V: str) -> None:
             f"Message(node_id=In.node_id, child_id=In.child_id, command=In.command, ack=0, message_type={idresp}, payload=str({alloc_c}))",
             f"Message(node_id=In.node_id, child_id=In.child_id, command=3, message_type={idresp}, payload=str({alloc_c}))",
         ]
+        # when the id variable has several bindings it is not written out by the canonical form
+        want += [w.replace(f"str({alloc_c})", f"str({idv})") for w in want]
         key = f"{f.fq}::reply"
         flag = sb.send_buffered_flag(call)
         if term in want and flag is False:
             chk.ok(rule, key, f"reply = Message(In.node_id, In.child_id, In.command, I_ID_RESPONSE, str({idv})) unbuffered", ctx.loc(f, call))
         else:
             chk.refute(rule, key, f"the reply is `{term[:160]}` (buffering {flag}); expected an id response addressed like the request carrying str({idv}), sent unbuffered", ctx.loc(f, call))
+
+
+def range_pick(ctx: Ctx, f, e: ast.expr):
+    """`<list of free ids>[k]` / `min(...)` / `next(...)` over `[i for i in <constant range> if i not in gateway.nodes]`
+    -> (lo, hi, has_filter) of the range the pick is drawn from."""
+    sh = search_shape(ctx, f, e)
+    if sh is not None:
+        return sh[0], sh[1], sh[3]
+    cn = Canon(ctx.I, f, "")
+    t = cn.tree(e)
+    src = None
+    if isinstance(t, ast.Subscript) and isinstance(t.slice, (ast.Constant, ast.UnaryOp)):
+        src = t.value
+    elif isinstance(t, ast.Call) and isinstance(t.func, ast.Name) and t.func.id in ("min", "max") and len(t.args) == 1:
+        src = t.args[0]
+    if not isinstance(src, (ast.ListComp, ast.GeneratorExp, ast.SetComp)) or len(src.generators) != 1:
+        return None
+    gen = src.generators[0]
+    if not (isinstance(gen.target, ast.Name) and isinstance(src.elt, ast.Name) and src.elt.id == gen.target.id):
+        return None
+    it = gen.iter
+    lo = hi = None
+    mod = f.module
+    hops = 0
+    while isinstance(it, ast.Name) and hops < 3:
+        # a module-level constant holding the range
+        hops += 1
+        d = ctx.prog.resolve_name(mod, it.id)
+        if d is None or d.kind != "const":
+            break
+        mod, it = d.module, d.obj
+    if isinstance(it, ast.Call) and isinstance(it.func, ast.Name) and it.func.id == "range" and 1 <= len(it.args) <= 2:
+        try:
+            vals = [ctx.folder.plain(ctx.folder.fold(mod, a)) for a in it.args]
+        except Exception:  # noqa: BLE001
+            return None
+        lo, hi = (0, vals[0]) if len(vals) == 1 else (vals[0], vals[1])
+    else:
+        try:
+            v = ctx.folder.fold(f.module, it)
+        except Exception:  # noqa: BLE001
+            return None
+        if isinstance(v, range) and v.step == 1:
+            lo, hi = v.start, v.stop
+        elif isinstance(v, (tuple, list, set, frozenset)) and v and all(isinstance(x, int) for x in v):
+            lo, hi = min(v), max(v) + 1
+        else:
+            return None
+    var = gen.target.id
+    has_filter = any(isinstance(c, ast.Compare) and len(c.ops) == 1 and isinstance(c.ops[0], ast.NotIn) and norm(c.left) == var and norm(c.comparators[0]) == "gateway.nodes" for c in gen.ifs)
+    return lo, hi, has_filter
+
+
+def id_keep(ctx: Ctx, chk) -> None:
+    rule = "ID-KEEP-1"
+    chk.rule(rule, "an id that was handed out stays registered: nothing removes an entry from the node registry (freshness is 'differs from every registered id', so an id that is unregistered again - e.g. because the reply could not be written after the bytes had left - is handed out a second time)")
+    from .c04 import NODE_T
+
+    n = 0
+    for f in ctx.prog.all_functions():
+        if f.module.name.startswith("aiomysensors.cli"):
+            continue
+        for node in ctx.own_nodes(f):
+            tgt = None
+            if isinstance(node, ast.Delete):
+                for t in node.targets:
+                    if isinstance(t, ast.Subscript):
+                        tgt = t.value
+            elif isinstance(node, ast.Call) and isinstance(node.func, ast.Attribute) and node.func.attr in ("pop", "popitem", "clear"):
+                tgt = node.func.value
+            if tgt is None:
+                continue
+            t = ctx.prog.type_of(f.module, tgt) or ""
+            if not t.startswith((f"builtins.dict[builtins.int, {NODE_T}", f"dict[int, {NODE_T}", f"dict[builtins.int, {NODE_T}")):
+                continue
+            n += 1
+            chk.instance(rule)
+            chk.refute(rule, fkey(f, node), f"`{norm(node)[:60]}` in {f.qualname} removes a node from the registry: its id becomes free again and the allocator hands it to another node", ctx.loc(f, node))
+    chk.instance(rule)
+    if n == 0:
+        chk.ok(rule, "registry::grow-only", "no statement removes an entry of the node registry", "src/aiomysensors")
 
 
 def search_shape(ctx: Ctx, f, alloc: ast.expr):
